@@ -24,6 +24,8 @@ def gen_steps(ctx, job, variant):
             steps.append(("reload",))          # checkpoint + restore between two actions
         elif r < 0.22 and i > 1:
             steps.append(("rollback", rng.randint(0, i)))
+        elif r < 0.30 and i > 1:
+            steps.append(("reload_same", rng.randint(0, i)))     # a prefix of its own logs reloaded into the same, used engine
     return lines, steps
 
 
